@@ -87,6 +87,18 @@ class GenericAdapter:
                 O[a["p"]].sort()
             elif n == "Reestablish":
                 O[a["p"]].reestablishBlockOrder()
+            elif n == "Replace":
+                b, t = O[a["b"]], O[a["t"]]
+                srcs = list(t)
+                b.replaceBlockWithBlock(t)
+                w["orig"][a["b"]] = w["orig"][a["t"]]
+                news = list(b)
+                if len(news) != len(a["ids"]):
+                    w["copyShape"] = "replacement has %d children, template %d" % (len(news), len(a["ids"]))
+                inv = {id(v): k for k, v in O.items()}
+                for nid, o_old, o_new in zip(a["ids"], srcs, news):
+                    O[nid] = o_new
+                    w["orig"][nid] = w["orig"][inv[id(o_old)]]
             elif n in ("DeepCopy", "Pickle"):
                 src = O[a["x"]]
                 new = copy.deepcopy(src) if n == "DeepCopy" else pickle.loads(pickle.dumps(src))
@@ -113,6 +125,17 @@ class GenericAdapter:
             if o is None:
                 return 0
             return ident.get(id(o), -99)
+
+        mats = {}
+        for k, v in O.items():
+            m = getattr(v, "material", None)
+            if m is not None:
+                mats[id(m)] = -k
+
+        def nid(o):  # noqa: F811  (materials appear in includeMaterials queries as -<component id>)
+            if o is None:
+                return 0
+            return ident.get(id(o), mats.get(id(o), -99))
 
         def ids(seq):
             return [nid(o) for o in seq]
@@ -154,6 +177,11 @@ class GenericAdapter:
                 "type1": ids(o.getChildrenOfType("t1")),
                 "anc": chain,
                 "ancB": nid(o.getAncestorWithFlags(B)),
+                "ancBx": nid(o.getAncestorWithFlags(B, exactMatch=True)),
+                "ancAx": nid(o.getAncestorWithFlags(A, exactMatch=True)),
+                "deepMat": ids(o.getChildren(deep=True, includeMaterials=True)),
+                "flagAMat": ids(o.getChildren(includeMaterials=True, predicate=lambda c: c.hasFlags(A))),
+                "gen2Mat": ids(o.getChildren(generationNum=2, includeMaterials=True)),
                 "ancOdd": nid(o.parent.getAncestor(odd)) if o.parent is not None else 0,
                 "ancOddS": 0 if ad is None else nid(ad[0]),
                 "ancOddDist": -1 if ad is None else ad[1],
@@ -263,7 +291,7 @@ FAMILIES = {
 ACTIONS = {
     "generic": ("Add", "AddPresent", "Insert", "InsertPresent", "RemoveChild", "RemoveAbsentWhereItMatters", "SetChildrenAny", "RemoveAll", "MoveTo", "Sort", "Copy"),
     "typed": ("Add", "AddPresent", "AddWrongType", "Insert", "InsertPresent", "RemoveChild", "RemoveAbsentWhereItMatters", "SetChildrenAny", "RemoveAll", "Sort",
-              "Reestablish", "Copy"),
+              "Reestablish", "Copy", "Replace"),
 }
 
 
@@ -374,7 +402,7 @@ def random_action(ad, w, rng, N, NL):
     typed = ad.typed
     kinds = ["Add", "Add", "Insert", "Insert", "Remove", "RemoveAll", "SetChildren", "Sort",
              "DeepCopy", "Pickle", "AddPresent", "InsertPresent", "RemoveAbsent"]
-    kinds += ["Reestablish", "AddWrongType", "Add", "Insert"] if typed else ["MoveTo"]
+    kinds += ["Reestablish", "AddWrongType", "Add", "Insert", "Replace"] if typed else ["MoveTo"]
     kind = rng.choice(kinds)
 
     def kind_of(n):
@@ -423,6 +451,14 @@ def random_action(ad, w, rng, N, NL):
         return {"n": kind, "p": p, "c": rng.choice(cs)} if cs else None
     if kind == "RemoveAll":
         return {"n": kind, "p": p} if kids else None
+    if kind == "Replace":
+        bs = [b for b in live if kind_of(b) == "blk"]
+        if len(bs) < 2:
+            return None
+        b, t = rng.sample(bs, 2)
+        free = [i for i in range(1, N + 1) if i not in O]
+        k = len(O[t])
+        return {"n": kind, "b": b, "t": t, "ids": free[:k]} if k <= len(free) else None
     if kind == "Reestablish":
         return {"n": kind, "p": p} if kids and kind_of(p) == "asm" else None
     if kind == "SetChildren":
